@@ -33,7 +33,8 @@ End Dict.
 Inductive okind := KVector | KImage | KDiscrete | KDict | KTuple.
 Inductive emode := MTerm | MTrunc | MMixed.
 
-Record senv := { eid : Z; nag : nat; lens : list nat; mode : emode; leave : list (option nat); kind : okind }.
+Record senv := { eid : Z; nag : nat; lens : list nat; mode : emode; leave : list (option nat); kind : okind;
+                 unaligned : bool (* the truncation dict lists the agents in reverse order *) }.
 Record sstate := { base : Z; ord : nat; tm : nat; live : list nat }.
 Definition init_state : sstate := {| base := 0; ord := 0; tm := 0; live := [] |}.
 
@@ -95,7 +96,7 @@ Definition raw_step (E : senv) (s : sstate) (acts : list Z) : sstate * trans :=
    {| tobs := map (fun a => (a, observe E s1 a (nth a acts 0%Z))) L;
       trew := map (fun a => (a, (100 * Z.of_nat (tm s1) + 10 * Z.of_nat a + nth a acts 0)%Z)) L;
       tterm := map (fun a => (a, term_of E s1 endT a)) L;
-      ttrunc := map (fun a => (a, trunc_of E s1 endT a)) L;
+      ttrunc := (if unaligned E then @rev _ else fun l => l) (map (fun a => (a, trunc_of E s1 endT a)) L);
       tinfo := map (fun a => (a, info_of s1 a false)) L |}).
 
 (* ------------------------------------------------------------------ the reference: environment i stepped
@@ -132,18 +133,26 @@ Definition process_transition (k : okind) (agents : list nat) (tr : trans) : tra
      ttrunc := fill agents false (ttrunc tr);
      tinfo := fill agents [] (tinfo tr) |}.
 
-(* all([term | trunc for term, trunc in zip(terminated.values(), truncated.values())]) *)
+(* all([terminated[agent] | truncated[agent] for agent in terminated.keys()])  — the test after
+   fixes/C12-worker-done-test-by-key.patch; the same test as the wrapper's *)
+Definition all_done_keys (tr : trans) : bool :=
+  forallb (fun a => get a (tterm tr) false || get a (ttrunc tr) false) (keys (tterm tr)).
+(* all([term | trunc for term, trunc in zip(terminated.values(), truncated.values())])  — the test
+   of the tree without that patch: pairs the two dicts by POSITION *)
 Definition all_done_zip (tr : trans) : bool :=
   forallb (fun p => fst p || snd p) (combine (vals (tterm tr)) (vals (ttrunc tr))).
 
 (* command == "step": step, reset if every agent is done, THEN build the transition, fill, (write) *)
-Definition worker_step (E : senv) (agents : list nat) (s : sstate) (acts : list Z) : sstate * trans :=
+Definition worker_step_with (test : trans -> bool) (E : senv) (agents : list nat) (s : sstate) (acts : list Z)
+  : sstate * trans :=
   let '(s1, tr) := raw_step E s acts in
-  let '(s2, o, i) := if all_done_zip tr
+  let '(s2, o, i) := if test tr
                      then let '(s2, (o, i)) := env_reset E s1 None in (s2, o, i)
                      else (s1, tobs tr, tinfo tr) in
   (s2, process_transition (kind E) agents
          {| tobs := o; trew := trew tr; tterm := tterm tr; ttrunc := ttrunc tr; tinfo := i |}).
+Definition worker_step := worker_step_with all_done_keys.
+Definition worker_step_zip := worker_step_with all_done_zip.
 
 (* command == "reset" *)
 Definition worker_reset (E : senv) (agents : list nat) (s : sstate) (seed : option Z)
@@ -280,9 +289,7 @@ Fixpoint vec_run (k : okind) (agents : list nat) (Es : list senv) (st : vstate)
   end.
 
 (* ------------------------------------------------------------------ PettingZooAutoResetParallelWrapper *)
-(* all(terminations[agent] or truncations[agent] for agent in terminations.keys()) *)
-Definition all_done_keys (tr : trans) : bool :=
-  forallb (fun a => get a (tterm tr) false || get a (ttrunc tr) false) (keys (tterm tr)).
+(* all(terminations[agent] or truncations[agent] for agent in terminations.keys()) = all_done_keys *)
 Definition wrapper_step (E : senv) (s : sstate) (acts : list Z) : sstate * trans :=
   let '(s1, tr) := raw_step E s acts in
   if all_done_keys tr then
